@@ -1090,18 +1090,21 @@ pub fn tokenless_case(t: &mut Tape) -> NetCase {
 /// Long URLs (60-126 tokens, the documented index limit is 127) and long hostnames; rules are cut
 /// from the *tail* of the URL so that the token that decides the bucket lies late in the URL.
 pub fn long_url_case(t: &mut Tape) -> NetCase {
+    // token budget: scheme + host labels + path segments + 2 per query pair must stay below 120
+    let nlabels = 1 + t.pick(12);
+    let budget = (30 + t.pick(86)).min(116usize.saturating_sub(nlabels + 3));
+    let in_query = t.pick(budget / 3 + 1);
+    let nseg = budget - 2 * in_query + in_query; // path segments + query pairs
     let mut segs: Vec<String> = vec![];
-    let ntok = 40 + t.pick(86);
-    for i in 0..ntok {
+    for i in 0..nseg {
         segs.push(if t.chance(1, 6) { format!("{}{}", word(t), i) } else { format!("t{}x{}", i, t.pick(50)) });
     }
-    let nlabels = 1 + t.pick(12);
     let mut host = String::new();
     for i in 0..nlabels {
         host.push_str(&format!("l{}.", i));
     }
     host.push_str("example.com");
-    let split = t.pick(segs.len());
+    let split = segs.len() - in_query.min(segs.len());
     let path = segs[..split].join("/");
     let query = segs[split..].iter().enumerate().map(|(i, s)| format!("k{}={}", i, s)).collect::<Vec<_>>().join("&");
     let u = format!("https://{}/{}?{}", host, path, query);
